@@ -37,9 +37,13 @@ def shown (s : Settings) (rx : String → String → Bool) (file : String) (ty :
    | none => false) &&
   !(s.ignoreErr ++ ["server/meta"]).any (patMatch rx file)
 
-/-- configuration class of finding C17-K1: master on, switches of types 2, 3, 10, 11, 12 all off -/
+/-- the types whose diagnostics are produced by the cross-file pass (the list of `IsSpecialCheck`; goto-label,
+    type 9, was missing from it: finding C17-K1, repaired) -/
+def specialTypes : List Nat := [2, 3, 9, 10, 11, 12]
+
+/-- master on and the switches of ALL the cross-file types off: the configuration in which the pass is skipped -/
 def specialOff (s : Settings) : Bool :=
-  s.val "AllEnable" && !s.val "CheckNoDefine" && !s.val "CheckAfterDefine" && !s.val "CheckFuncParam" &&
-  !s.val "CheckImportModuleVar" && !s.val "CheckIfNotVar"
+  s.val "AllEnable" && !s.val "CheckNoDefine" && !s.val "CheckAfterDefine" && !s.val "CheckGotoLable" &&
+  !s.val "CheckFuncParam" && !s.val "CheckImportModuleVar" && !s.val "CheckIfNotVar"
 
 end LuaHelper.ConfSpec
